@@ -7,7 +7,8 @@ import GeffProofs.SpecDecode
 `Geff.Bridge.toTarget` of the flat store) were written independently.  `denote` is the more tolerant
 one; the three decidable side conditions below are exactly what it does not demand and the validator
 does.  `conformant_of_denote` is the inclusion; `validate_of_denote` its consequence through
-`C04_sound_complete`.  No new model: every definition here is a predicate on the flat store `St`. -/
+`C04_sound_complete`; `validate_iff_conditions` shows the conditions are exactly the gap (converse
+`conditions_of_conformant`, for metadata dicts with one entry per key).  No new model: every definition here is a predicate on the flat store `St`. -/
 namespace Geff.LinkStruct
 open Geff.Np Geff.Store Geff.Spec Geff.Bridge
 open Gen.Paths (NODES EDGES IDS PROPS VALUES MISSING DATA)
@@ -548,5 +549,246 @@ theorem validate_of_denote (s : St) (G : Graph) (h : denote s = some G)
   have := (GeffProps.C04.C04_sound_complete (toTarget s)).2 (conformant_of_denote s G h hu hk ha)
   unfold validate
   rw [this]; rfl
+
+/-! ## the converse: on a store the specification assigns a graph to, the side conditions are exactly what
+the validator adds -/
+
+/-- the metadata of both sides is a dict: one entry per key (true of every JSON object; the flat-store
+model keeps the dict as a list) -/
+def MetaKeysUnique (s : St) : Bool :=
+  match geffMeta s with
+  | some m => decide (m.nodeProps.map (·.1)).Nodup && decide (m.edgeProps.map (·.1)).Nodup
+  | none => true
+
+theorem nodeAt_group_inv (fuel : Nat) (s : St) (p : Path) (g : Geff.Structure.Grp)
+    (h : nodeAt (fuel + 1) s p = some (.group g)) : ∃ a, get s p = some (.group a) ∧ g = members fuel s p := by
+  cases hg : get s p with
+  | none => rw [nodeAt_none _ _ _ hg] at h; cases h
+  | some e =>
+    cases e with
+    | array a => rw [nodeAt_array _ _ _ a hg] at h; cases h
+    | group a =>
+      rw [nodeAt_group _ _ _ a hg] at h
+      simp only [Option.some.injEq, Geff.Structure.Node.group.injEq] at h
+      exact ⟨a, rfl, h.symm⟩
+
+theorem nodeAt_array_inv (fuel : Nat) (s : St) (p : Path) (v : Geff.Structure.Arr)
+    (h : nodeAt (fuel + 1) s p = some (.array v)) : ∃ a, get s p = some (.array a) ∧ v = arrOf a := by
+  cases hg : get s p with
+  | none => rw [nodeAt_none _ _ _ hg] at h; cases h
+  | some e =>
+    cases e with
+    | group a => rw [nodeAt_group _ _ _ a hg] at h; cases h
+    | array a =>
+      rw [nodeAt_array _ _ _ a hg] at h
+      simp only [Option.some.injEq, Geff.Structure.Node.array.injEq] at h
+      exact ⟨a, rfl, h.symm⟩
+
+theorem nodeAt_none_inv (fuel : Nat) (s : St) (p : Path) (h : nodeAt (fuel + 1) s p = none) : get s p = none := by
+  cases hg : get s p with
+  | none => rfl
+  | some e =>
+    cases e with
+    | group a => rw [nodeAt_group _ _ _ a hg] at h; cases h
+    | array a => rw [nodeAt_array _ _ _ a hg] at h; cases h
+
+/-- one side: a conformant `props` group (C04) has a member for every metadata key, and `uint64` tables -/
+theorem side_of_conformantProps (fuel : Nat) (s : St) (grp : String) (n : Nat)
+    (mds : List (String × PropMeta)) (L : List (String × Geff.Structure.PropMeta))
+    (hnd : (mds.map (·.1)).Nodup) (hL : metasOf mds = some L)
+    (hc : GeffProps.C04.ConformantProps n L (Geff.Structure.get (members (fuel + 3) s [grp]) PROPS)) :
+    metaKeysAreGroups s [grp, "props"] mds = true ∧ mds.all (tableU64 s [grp, "props"]) = true := by
+  obtain ⟨hkeysL, hlookL⟩ := metasOf_spec mds L hL
+  have e0 : [grp] ++ [PROPS] = [grp, "props"] := rfl
+  rw [get_members, e0] at hc
+  cases hn : nodeAt (fuel + 3) s [grp, "props"] with
+  | none =>
+    rw [hn] at hc
+    have hLnil : L = [] := hc
+    have hmds : mds = [] := by
+      rw [hLnil] at hkeysL
+      cases mds with
+      | nil => rfl
+      | cons a t => simp [Geff.Structure.keys] at hkeysL
+    subst hmds
+    exact ⟨by simp [metaKeysAreGroups], rfl⟩
+  | some nd =>
+    rw [hn] at hc
+    cases nd with
+    | array a => exact absurd hc id
+    | group props =>
+      obtain ⟨ap, hgp, hprops⟩ := nodeAt_group_inv (fuel + 2) s _ props hn
+      subst hprops
+      obtain ⟨hck, hcall⟩ := hc
+      have hga : groupAt s [grp, "props"] = true := by unfold groupAt; rw [hgp]
+      have hmemb : ∀ kv ∈ mds, (get s ([grp, "props"] ++ [kv.1])).isSome = true := by
+        intro kv hkv
+        have : kv.1 ∈ Geff.Structure.keys L := by rw [hkeysL]; exact List.mem_map.2 ⟨kv, hkv, rfl⟩
+        exact (mem_keys_members (fuel + 1) s _ kv.1).1 ((hck kv.1).1 this)
+      refine ⟨?_, ?_⟩
+      · unfold metaKeysAreGroups
+        simp only [Bool.and_eq_true, decide_eq_true_eq, List.all_eq_true, List.contains_iff_mem]
+        refine ⟨hnd, fun kv hkv => ?_⟩
+        unfold propGroupNames
+        rw [if_pos hga]
+        exact (mem_childNames s _ kv.1).2 (hmemb kv hkv)
+      · rw [List.all_eq_true]
+        intro kv hkv
+        unfold tableU64
+        cases hvl : kv.2.varlength.getD false with
+        | false => rfl
+        | true =>
+          simp only [Bool.not_true, Bool.false_or]
+          cases hv : arrayAt s ([grp, "props"] ++ [kv.1, "values"]) with
+          | none => rfl
+          | some a =>
+            simp only [beq_iff_eq]
+            have ha := arrayAt_some s _ a hv
+            -- the parsed entry of `kv.1` is var-length
+            have hfind : find kv.1 mds = some kv.2 := find_of_mem_nodup mds kv.1 kv.2 hnd hkv
+            have hkL : kv.1 ∈ Geff.Structure.keys L := by rw [hkeysL]; exact List.mem_map.2 ⟨kv, hkv, rfl⟩
+            obtain ⟨pm, hpm⟩ : ∃ pm, Geff.Structure.lookup L kv.1 = some pm := by
+              have := (Geff.Structure.lookup_isSome_iff L kv.1).2 hkL
+              cases hl : Geff.Structure.lookup L kv.1 with
+              | none => rw [hl] at this; cases this
+              | some pm => exact ⟨pm, rfl⟩
+            have hpm' := hpm
+            rw [hlookL, hfind] at hpm'
+            simp only [Option.bind_some] at hpm'
+            have hpmvl : pm.varlength = true := by
+              unfold propMetaOf at hpm'
+              cases hd : Dtype.ofName? kv.2.dtype with
+              | none => rw [hd] at hpm'; cases hpm'
+              | some dt =>
+                rw [hd] at hpm'
+                simp only [Option.map_some, Option.some.injEq] at hpm'
+                rw [← hpm']; exact hvl
+            -- its property group in the tree
+            have hsome := hmemb kv hkv
+            cases hge : get s ([grp, "props"] ++ [kv.1]) with
+            | none => rw [hge] at hsome; cases hsome
+            | some e =>
+              have hget : Geff.Structure.get (members (fuel + 2) s [grp, "props"]) kv.1 =
+                  nodeAt (fuel + 2) s ([grp, "props"] ++ [kv.1]) := get_members _ _ _ _
+              cases hnk : nodeAt (fuel + 2) s ([grp, "props"] ++ [kv.1]) with
+              | none => rw [nodeAt_none_inv _ _ _ hnk] at hge; cases hge
+              | some pn =>
+                rw [hnk] at hget
+                obtain ⟨pg, v, hpg, hvv, _, hcase, _⟩ := hcall kv.1 pm pn hpm hget
+                subst hpg
+                obtain ⟨ak, _, hpgm⟩ := nodeAt_group_inv (fuel + 1) s _ pg hnk
+                subst hpgm
+                rw [if_pos hpmvl] at hcase
+                rw [get_members] at hvv
+                have eV : [grp, "props"] ++ [kv.1] ++ [VALUES] = [grp, "props"] ++ [kv.1, "values"] := rfl
+                rw [eV] at hvv
+                obtain ⟨a', ha', hva⟩ := nodeAt_array_inv fuel s _ v hvv
+                rw [ha] at ha'
+                simp only [Option.some.injEq, Entry.array.injEq] at ha'
+                subst ha'
+                have := hcase.1
+                rw [hva] at this
+                exact this
+
+theorem metaReadOf_ok_inv (s : St) (attrs : Attrs) (m : GeffAttr) (mT : Geff.Structure.Meta)
+    (hroot : get s [] = some (.group attrs)) (hgeff : Geff.WR.lookupKey "geff" attrs = some (.geff m))
+    (h : metaReadOf s = .ok mT) :
+    ∃ Ln Le, metasOf m.nodeProps = some Ln ∧ metasOf m.edgeProps = some Le ∧ mT = ⟨Ln, Le, m.axes⟩ := by
+  unfold metaReadOf at h
+  rw [hroot] at h
+  have hf : (attrs.find? (fun kv => kv.1 = "geff")).map (·.2) = some (.geff m) := hgeff
+  simp only [hf] at h
+  cases hn : metasOf m.nodeProps with
+  | none => rw [hn] at h; cases h
+  | some Ln =>
+    cases he : metasOf m.edgeProps with
+    | none => rw [hn, he] at h; cases h
+    | some Le =>
+      rw [hn, he] at h
+      simp only [Geff.Structure.MetaRead.ok.injEq] at h
+      exact ⟨Ln, Le, rfl, rfl, h.symm⟩
+
+/-- **the converse inclusion**: on a store the specification assigns a graph to and whose metadata dicts
+have one entry per key, C04's `Conformant` (on the tree view) implies the three side conditions -/
+theorem conditions_of_conformant (s : St) (G : Graph) (h : denote s = some G) (hq : MetaKeysUnique s = true)
+    (hc : GeffProps.C04.Conformant (toTarget s)) :
+    OffsetTablesU64 s = true ∧ MetaKeysArePropGroups s = true ∧ AxesAreNodeProps s = true := by
+  obtain ⟨m, _, _, _, _, _, _, hm, _, _, _, _, _, _, _, _, _, _⟩ := denote_inv s G h
+  obtain ⟨attrs, hroot, hgeff⟩ := geffMeta_inv s m hm
+  unfold MetaKeysUnique at hq
+  rw [hm] at hq
+  simp only [Bool.and_eq_true, decide_eq_true_eq] at hq
+  unfold toTarget at hc
+  obtain ⟨graph, mT, nodes, edges, nid, eid, N, E, hrootT, hattrs, hn, he, _, _, _, _, _, _, hnp, hep, hax⟩ := hc
+  obtain ⟨Ln, Le, hLn, hLe, hmT⟩ := metaReadOf_ok_inv s attrs m mT hroot hgeff hattrs
+  subst hmT
+  have hd : depth = 7 + 1 := rfl
+  rw [hd] at hrootT
+  obtain ⟨_, _, hgraph⟩ := nodeAt_group_inv 7 s [] graph hrootT
+  subst hgraph
+  have eN : ([] : Path) ++ [NODES] = ["nodes"] := rfl
+  have eE : ([] : Path) ++ [EDGES] = ["edges"] := rfl
+  rw [get_members, eN] at hn
+  rw [get_members, eE] at he
+  obtain ⟨_, _, hnodes⟩ := nodeAt_group_inv 6 s _ nodes hn
+  obtain ⟨_, _, hedges⟩ := nodeAt_group_inv 6 s _ edges he
+  subst hnodes; subst hedges
+  obtain ⟨kn, un⟩ := side_of_conformantProps 3 s "nodes" N m.nodeProps Ln hq.1 hLn hnp
+  obtain ⟨ke, ue⟩ := side_of_conformantProps 3 s "edges" E m.edgeProps Le hq.2 hLe hep
+  refine ⟨?_, ?_, ?_⟩
+  · unfold OffsetTablesU64; rw [hm]; simp only [un, ue, Bool.and_self]
+  · unfold MetaKeysArePropGroups; rw [hm]; simp only [kn, ke, Bool.and_self]
+  · unfold AxesAreNodeProps
+    rw [hm]
+    simp only []
+    cases hma : m.axes with
+    | none => rfl
+    | some axes =>
+      simp only [Option.getD_some, List.all_eq_true]
+      intro ax hmem
+      obtain ⟨hkey, props, pg, v, hp, hpg, hv, hlen, hmiss⟩ := hax axes hma ax hmem
+      have ePr : ["nodes"] ++ [PROPS] = ["nodes", "props"] := rfl
+      have eAx : ["nodes", "props"] ++ [ax] = ["nodes", "props", ax] := rfl
+      have eV : ["nodes", "props", ax] ++ [VALUES] = ["nodes", "props", ax, "values"] := rfl
+      have eM : ["nodes", "props", ax] ++ [MISSING] = ["nodes", "props", ax, "missing"] := rfl
+      rw [get_members, ePr] at hp
+      obtain ⟨_, _, hprops⟩ := nodeAt_group_inv 5 s _ props hp
+      subst hprops
+      rw [get_members, eAx] at hpg
+      obtain ⟨_, _, hpgm⟩ := nodeAt_group_inv 4 s _ pg hpg
+      subst hpgm
+      rw [get_members, eV] at hv
+      obtain ⟨a, ha, hva⟩ := nodeAt_array_inv 3 s _ v hv
+      rw [get_members, eM] at hmiss
+      have hmg := nodeAt_none_inv 3 s _ hmiss
+      unfold axisOK
+      have hkey' : ax ∈ m.nodeProps.map (·.1) := by
+        rw [← (metasOf_spec m.nodeProps Ln hLn).1]; exact hkey
+      have harr : arrayAt s ["nodes", "props", ax, "values"] = some a := by unfold arrayAt; rw [ha]
+      rw [harr, hmg]
+      simp only [Bool.and_eq_true, List.contains_iff_mem, beq_iff_eq, Option.isNone_none, and_true]
+      refine ⟨hkey', ?_⟩
+      rw [hva] at hlen
+      exact hlen
+
+/-- **the side conditions are exactly what the validator adds to the specification's layout**: on every
+store `docs/specification.md` assigns a graph to (metadata dicts with one entry per key), C04's model of
+`validate_structure` returns normally iff the offset tables are `uint64`, the metadata keys are property
+groups and the axes name 1-D unmasked node properties -/
+theorem validate_iff_conditions (s : St) (G : Graph) (h : denote s = some G) (hq : MetaKeysUnique s = true) :
+    validate s = .ok () ↔
+      (OffsetTablesU64 s = true ∧ MetaKeysArePropGroups s = true ∧ AxesAreNodeProps s = true) := by
+  constructor
+  · intro hv
+    apply conditions_of_conformant s G h hq
+    apply (GeffProps.C04.C04_sound_complete (toTarget s)).1
+    unfold validate at hv
+    cases hvs : Geff.Structure.validateStructure (toTarget s) with
+    | ok u => rfl
+    | error e =>
+      rw [hvs] at hv
+      cases e <;> cases hv
+  · rintro ⟨h1, h2, h3⟩
+    exact validate_of_denote s G h h1 h2 h3
 
 end Geff.LinkStruct
